@@ -6,7 +6,10 @@
    process-global tables; `inline` / `inlT` = recursive inlining (tokens / tree); `outputs c A its` = the
    output(s) of the instance(s) with id c; `carrying c doc` = number of elements of doc with attribute
    data-djc-id-c; `top_elems out` = number of top-level elements of out. *)
-From DJC Require Import Lib.Base PostRender.Model PostRender.Proofs.
+From DJC Require Import Lib.Base PostRender.Model PostRender.Proofs PostRender.Placeholder.
+From DJC Require Gen.C14.
+Import Coq.Strings.String.StringSyntax.
+Local Delimit Scope string_scope with string.
 
 (* The queue computes the inlining: for EVERY instance forest with pairwise distinct ids - any shape, any
    nesting depth, any number of root elements, components as roots - rendering the page from clean tables
@@ -76,7 +79,29 @@ Theorem every_program_marks_roots_only : forall fuel p its n,
 Proof. exact program_lemma. Qed.
 Print Assumptions every_program_marks_roots_only.
 
+(* String level (constants regenerated from /repo): for EVERY id the supply can produce (alphabet and length of
+   gen_id) and every list of marker attributes the parent may have put on it, the placeholder text a nested
+   component returns is recognised by nested_comp_pattern and render_id_pattern reads back exactly that id -
+   so no placeholder is skipped or attributed to another instance, whatever follows it. *)
+Theorem placeholder_found_with_its_id : forall id attrs tail,
+  length id = Gen.C14.id_size ->
+  Forall (fun c => In c Gen.C14.id_alphabet) id ->
+  Forall (Forall (fun c => In c Gen.C14.id_alphabet)) attrs ->
+  match_placeholder_at (tagged_placeholder id attrs ++ tail) = Some (id, tail).
+Proof. exact placeholder_roundtrip_lemma. Qed.
+Print Assumptions placeholder_found_with_its_id.
+
 (* ---------- non-vacuity ---------- *)
+Example ex_placeholder :
+  tagged_placeholder (s2n "a1B2c3"%string) [s2n "Zz0Zz0"%string]
+  = s2n "<template djc-render-id=""a1B2c3"" data-djc-id-Zz0Zz0=""""></template>"%string
+  /\ match_placeholder_at (tagged_placeholder (s2n "a1B2c3"%string) [s2n "Zz0Zz0"%string] ++ s2n "<p>"%string)
+     = Some (s2n "a1B2c3"%string, s2n "<p>"%string).
+Proof. vm_compute. split; reflexivity. Qed.
+(* the length hypothesis matters: a 5-character id is not found (its placeholder would survive in the output) *)
+Example ex_short_id_not_found : match_placeholder_at (tagged_placeholder (s2n "a0001"%string) []) = None.
+Proof. vm_compute. reflexivity. Qed.
+
 (* library: 1 = <div>{slot}</div> text {comp 2}   2 = <span/><p>{dynamic comp 3}</p>   3 = text-only
    page: <section>{% for 2 times %}{comp 1}{comp 2 /}{/comp}{% endfor %}</section> *)
 Definition ex_prog : prog :=
